@@ -11,8 +11,11 @@ import (
 	"encoding/base64"
 	"encoding/hex"
 	"math/big"
+	"strings"
 
 	"google.golang.org/protobuf/proto"
+	"google.golang.org/protobuf/reflect/protoreflect"
+	"google.golang.org/protobuf/reflect/protoregistry"
 	"pgregory.net/rapid"
 
 	cmacpb "github.com/tink-crypto/tink-go/v2/proto/aes_cmac_go_proto"
@@ -413,7 +416,7 @@ func (w *world) weak(name string) weakKey {
 // so that they land exactly; all of them are also reachable by medium faults.
 
 var structEdits = []string{"struct-primary-disabled", "struct-primary-destroyed", "struct-unknown-status", "struct-unknown-prefix", "struct-duplicate-id",
-	"struct-primary-absent", "struct-nil-keydata", "struct-no-keys", "struct-version-1", "struct-material-type", "struct-empty-value", "struct-all-disabled", "struct-prefix-type-5"}
+	"struct-primary-absent", "struct-nil-keydata", "struct-no-keys", "struct-version-1", "struct-material-type", "struct-empty-value", "struct-all-disabled", "struct-prefix-type-5", "struct-jwt-custom-kid"}
 
 // applyStruct edits ks in place; ok=false if the edit cannot apply.
 func (w *world) applyStruct(kind string, ks *tinkpb.Keyset) bool {
@@ -493,6 +496,27 @@ func (w *world) applyStruct(kind string, ks *tinkpb.Keyset) bool {
 			return false
 		}
 		k.KeyData.Value = nil
+	case "struct-jwt-custom-kid":
+		// JWT keys may carry a caller-chosen kid (field custom_kid of the key proto, of its public half for private
+		// keys); no key generator produces one, a stored keyset may hold any string there, the empty one included
+		var jk *tinkpb.Keyset_Key
+		for _, x := range ks.Key {
+			if x.KeyData != nil && strings.Contains(x.KeyData.TypeUrl, ".Jwt") {
+				jk = x
+			}
+		}
+		if jk == nil {
+			return false
+		}
+		kid := rapid.SampledFrom([]string{"", "k", "custom-kid-1", "kid with space", "\u00e9\u4e16", strings.Repeat("x", 300)}).Draw(t, "structKid")
+		nv, ok := setCustomKid(jk.KeyData.TypeUrl, jk.KeyData.Value, kid)
+		if !ok {
+			return false
+		}
+		jk.KeyData.Value = nv
+		if rapid.IntRange(0, 3).Draw(t, "structKidKeepPrefix") != 0 {
+			jk.OutputPrefixType = tinkpb.OutputPrefixType_RAW // a custom kid goes with RAW; with another prefix a reader may refuse
+		}
 	case "struct-all-disabled":
 		for _, x := range ks.Key {
 			x.Status = tinkpb.KeyStatusType_DISABLED
@@ -501,4 +525,36 @@ func (w *world) applyStruct(kind string, ks *tinkpb.Keyset) bool {
 		return false
 	}
 	return true
+}
+
+// setCustomKid sets custom_kid.value in a serialized JWT key (in its public_key for private keys), whatever the key type:
+// the message type is looked up by URL in the protobuf registry.
+func setCustomKid(typeURL string, value []byte, kid string) ([]byte, bool) {
+	mt, err := protoregistry.GlobalTypes.FindMessageByURL(typeURL)
+	if err != nil {
+		return nil, false
+	}
+	m := mt.New()
+	if err := proto.Unmarshal(value, m.Interface()); err != nil {
+		return nil, false
+	}
+	target := m
+	if fd := m.Descriptor().Fields().ByName("public_key"); fd != nil && fd.Message() != nil {
+		target = m.Mutable(fd).Message()
+	}
+	fd := target.Descriptor().Fields().ByName("custom_kid")
+	if fd == nil || fd.Message() == nil {
+		return nil, false
+	}
+	ck := target.Mutable(fd).Message()
+	vf := ck.Descriptor().Fields().ByName("value")
+	if vf == nil {
+		return nil, false
+	}
+	ck.Set(vf, protoreflect.ValueOfString(kid))
+	out, err := proto.Marshal(m.Interface())
+	if err != nil {
+		return nil, false
+	}
+	return out, true
 }
